@@ -62,7 +62,10 @@ def program(rng, pid, ssa=None, shape=None, features=None):
 
     A = decl("A", "rgn")
     Bv = decl("B", "brgn" if btype == "bool" else "rgn")
-    RR = decl("RR", "rrgn") if has_rr else 0
+    # the region that holds references is declared with an UNKNOWN type in a third of the programs (a dynamically typed region:
+    # untracked with region.skip_unknown_regions, the default); the concrete semantics is the same
+    rr_unknown = has_rr and rng.random() < 0.33
+    RR = decl("RR", "urgn" if rr_unknown else "rrgn") if has_rr else 0
     A2 = decl("A2", "rgn") if has_copy else 0
     UK = decl("UK", "urgn") if has_cast else 0
     A3 = decl("A3", "rgn") if has_cast else 0
@@ -379,7 +382,30 @@ def program(rng, pid, ssa=None, shape=None, features=None):
         out += store(q, A)
         return out + [{"op": "rload", "x": rng.choice([j for j in INTS if j != i] or INTS), "ref": v, "r": A, "cls": 1}]
 
+    def cursor():
+        """a reference that already points to one object is re-assigned by a load from the region that holds references
+        (cur := *m after *m := src): what it pointed to before (allocation site, tags, nullity) must not survive the load"""
+        if not RR or not ok_deref(M_):
+            return field()
+        src = pick(cls_refs[1], lambda u: G["nn"][u] == "nn" and not G["mdead"][u] and G["obj"][u] not in G["dead"])
+        if src is None:
+            return field()
+        dst = pick(cls_refs[1], lambda u: u != src and writable(u) and G["nn"][u] != "undef" and G["obj"][u] != G["obj"][src])
+        if dst is None:
+            return field()
+        out = []
+        guard(M_, out)
+        out.append({"op": "rstore", "ref": M_, "r": RR, "cls": 3, "vk": 0, "v": src})
+        G["wr"][M_].add(RR)
+        for u in same_cell(M_):
+            G["wr"][u].add(RR)
+        out.append({"op": "rload", "x": dst, "ref": M_, "r": RR, "cls": 3})
+        set_ref(dst, G["nn"][src], G["obj"][src], G["off"][src], G["wr"][src], G["mdead"][src])
+        return out
+
     def one():
+        if RR and rng.random() < 0.07:
+            return cursor()
         r = rng.random()
         if not ssa and r < 0.06:
             return realloc()
